@@ -38,6 +38,31 @@ def classify(e: BaseException) -> str:
     return "other:" + type(e).__name__
 
 
+def _entry_groups(root: dict, entry_nodes: list[str]) -> list[list[str]]:
+    """Entry-point nodes grouped by the data cycle they lie on (order of first appearance)."""
+    import networkx as nx
+
+    g = nx.DiGraph()
+    outs: dict[str, list[str]] = {}
+    for n in root["nodes"]:
+        g.add_node(n["name"])
+        for o in n.get("dataOuts", []):
+            outs.setdefault(o, []).append(n["name"])
+    for n in root["nodes"]:
+        ren = dict(n.get("inRen", []))
+        for prm in n.get("params", []):
+            for src in outs.get(ren.get(prm[0], prm[0]), []):
+                g.add_edge(src, n["name"])
+    comp = {}
+    for i, scc in enumerate(nx.strongly_connected_components(g)):
+        for v in scc:
+            comp[v] = i
+    groups: dict[int, list[str]] = {}
+    for e in entry_nodes:
+        groups.setdefault(comp.get(e, -1 - len(groups)), []).append(e)
+    return list(groups.values())
+
+
 class C08(Prop):
     id = "C08"
     level = "proof"
@@ -55,6 +80,8 @@ class C08(Prop):
                 c = self._entry_bypass(rng)
             elif r < 0.2:
                 c = self._inner_binding_renamed(rng)
+            elif r < 0.26:
+                c = self._two_cycles(rng)
             elif r < 0.45:
                 c = gen.gen_dag_program(rng, max_nodes=7, depth=rng.choice([0, 0, 1]), allow_fed_default=rng.random() < 0.3)
             elif r < 0.75:
@@ -91,6 +118,21 @@ class C08(Prop):
                 ops["rtselect"] = rtsel
             yield {"program": program, "known": [[k, v] for k, v in known.items()], "rtselect": rtsel, "ops": ops,
                    "runner": rng.choice(["sync", "async"]), "rtselectTuple": rtsel is not None and rng.random() < 0.5}
+
+    @staticmethod
+    def _two_cycles(rng: random.Random) -> dict:
+        """Two independent data cycles (two self-feeding accumulators) steered by ONE gate that reads both: one entry point per cycle."""
+        n = rng.randint(1, 4)
+        rows = [[v, rng.choice(["gen", "count"])] for v in range(0, n)]
+        nodes = [
+            {"name": "gen", "kind": "fn", "params": [["msgs", None], ["prompt", None]], "dataOuts": ["msgs"], "body": {"b": "append"}},
+            {"name": "count", "kind": "fn", "params": [["total", None], ["step", None]], "dataOuts": ["total"], "body": {"b": "sum", "k": 0}},
+            {"name": "decide", "kind": "route", "params": [["total", None], ["msgs", None]], "targets": ["gen", "count", "__END__"], "multiTarget": False, "fallback": None,
+             "defaultOpen": rng.random() < 0.7, "body": {"b": "table", "rows": rows, "dflt": "__END__"}},
+        ]
+        rng.shuffle(nodes)
+        values = [["prompt", 1], ["step", 1], ["msgs", {"l": []}], ["total", 0]]
+        return {"program": [{"name": "g0", "nodes": nodes, "bound": []}], "values": values, "fixed_ops": True}
 
     @staticmethod
     def _inner_binding_renamed(rng: random.Random) -> dict:
@@ -130,15 +172,23 @@ class C08(Prop):
         return {"program": [g], "values": [["x", 3], ["x2", 4], ["a", 5]], "fixed_ops": True}
 
     # ---------------------------------------------------------------- implementation side
-    def _trials(self, spec: dict, known: dict) -> list[dict]:
+    def _trials(self, spec: dict, known: dict, root: dict | None = None) -> list[dict]:
         base = {}
         for r in spec["required"]:
             base[r] = known.get(r, 1)
         ep = None
         if spec["entrypoints"]:
             ep = spec["entrypoints"][0][0]
-            for p in spec["entrypoints"][0][1]:
-                base[p] = known.get(p, 1)
+            # one listed entry point PER CYCLE: entry points are grouped by the data cycle (strongly connected component of the
+            # data edges) their node lies on; the first listed entry point of each group is supplied
+            groups = _entry_groups(root, [e[0] for e in spec["entrypoints"]]) if root is not None else [[e[0] for e in spec["entrypoints"]]]
+            firsts = {g[0] for g in groups}
+            if len(groups) > 1:
+                ep = None
+            for name, params in spec["entrypoints"]:
+                if name in firsts:
+                    for p in params:
+                        base[p] = known.get(p, 1)
         trials = [{"values": [[k, v] for k, v in base.items()], "entrypoint": ep, "omit": None}]
         for r in spec["required"]:
             vals = [[k, v] for k, v in base.items() if k != r]
@@ -171,8 +221,19 @@ class C08(Prop):
             except Exception as e:
                 laws.append([k, "exc:" + type(e).__name__])
         obs["laws"] = laws
+        # history: SIBLINGS of the configured graph (other entry points derived from the same base object) are validated first,
+        # with the same run-time select; what they computed must not leak into this graph
+        base = env.bases.get(len(graphs) - 1)
+        if base is not None:
+            root_spec = case["program"][-1]
+            for other in [n["name"] for n in reversed(root_spec["nodes"]) if n["kind"] not in ("route", "ifelse") and n["name"] not in root_spec["entrypoints"]][:2]:
+                try:
+                    sib = base.with_entrypoint(other)
+                    self._outcome(sib, {k: py_val(v) for k, v in known.items()}, case)
+                except Exception:  # noqa: BLE001 - the sibling's own fate is irrelevant
+                    pass
         trials = []
-        for t in self._trials(obs["effspec"], known):
+        for t in self._trials(obs["effspec"], known, case["program"][-1]):
             rec = impl.Recorder()
             start = len(env.log)
             kwargs: dict[str, Any] = {"event_processors": [rec]}
@@ -204,8 +265,11 @@ class C08(Prop):
                 g2 = g.bind(**{r0: py_val(known.get(r0, 1))})
                 vals = {k: py_val(known.get(k, 1)) for k in eff_req if k != r0}
                 if obs["effspec"]["entrypoints"]:
-                    for pnm in obs["effspec"]["entrypoints"][0][1]:
-                        vals.setdefault(pnm, py_val(known.get(pnm, 1)))
+                    firsts = {grp[0] for grp in _entry_groups(case["program"][-1], [e[0] for e in obs["effspec"]["entrypoints"]])}
+                    for ename, eparams in obs["effspec"]["entrypoints"]:
+                        if ename in firsts:
+                            for pnm in eparams:
+                                vals.setdefault(pnm, py_val(known.get(pnm, 1)))
                 derived.append(["bind-then-omit", r0, self._outcome(g2, vals, case)])
                 g3 = g2.unbind(r0)
                 derived.append(["unbind-then-omit", r0, self._outcome(g3, vals, case)])
@@ -271,7 +335,7 @@ class C08(Prop):
             out["effspec"] = out["spec"]
         known = dict((k, v) for k, v in case["known"])
         trials = []
-        for t in self._trials(out["effspec"], known):
+        for t in self._trials(out["effspec"], known, case["program"][-1]):
             req = {"op": "runc", "program": case["program"], "values": t["values"], "runner": "sync",
                    "cfg": {"errMode": "continue", "maxIter": 60, **({"select": case["rtselect"]} if case["rtselect"] is not None else {})}}
             if t["entrypoint"] is not None and len(out["effspec"]["entrypoints"]) > 1:
